@@ -225,12 +225,69 @@ def run_cases(rng, n):
     return batch, failed, errors, bad, samples, dist, evals
 
 
+def owned_tsvd_cases(rng, tier):
+    """The Tsvd objects that the regressors fit and expose (tsvd_, tsvd_unshifted_, tsvd_shifted_) are Tsvd results like any
+    other: after the regressor's fit - and after its other methods were used - their factors still have orthonormal columns
+    and finite, non-negative, non-increasing singular values that reproduce a rank-r matrix."""
+    from .. import lmi, readonly
+    import pykoop.lmi_regressors as L
+    bad = []
+    n = 0
+
+    def check(obj, where, X):
+        if not hasattr(obj, 'singular_values_'):
+            return True          # (recorded finding F7: on a hit of the memo cache the regressor's Tsvd object is left unfitted)
+        Q = np.asarray(obj.left_singular_vectors_); s_ = np.asarray(obj.singular_values_); Z = np.asarray(obj.right_singular_vectors_)
+        r = s_.shape[0]
+        info = None
+        if not (np.all(np.isfinite(s_)) and np.all(np.isfinite(Q)) and np.all(np.isfinite(Z))):
+            info = dict(what='a regressor leaves its fitted Tsvd with non-finite factors', singular_values=s_.tolist())
+        elif r and (np.max(np.abs(Q.T @ Q - np.eye(r))) > 1e-8 or np.max(np.abs(Z.T @ Z - np.eye(r))) > 1e-8):
+            info = dict(what='a regressor leaves its fitted Tsvd with factors whose columns are not orthonormal',
+                        defect=float(max(np.max(np.abs(Q.T @ Q - np.eye(r))), np.max(np.abs(Z.T @ Z - np.eye(r))))))
+        elif r and (np.any(s_ < 0) or np.any(np.diff(s_) > 1e-12 * max(1.0, float(s_[0])))):
+            info = dict(what='a regressor leaves its fitted Tsvd with singular values that are not non-negative and non-increasing',
+                        singular_values=s_.tolist())
+        if info:
+            bad.append(dict(info, owner=where, X=X.tolist()))
+        return info is None
+
+    for h in range(4 if tier == 'quick' else 24):
+        ns = 2 + h % 2
+        X, _, _ = lmi.linear_data(rng, ns, 1 if h % 2 else 0, kind='stable')
+        nu = 1 if h % 2 else 0
+        Xd = X
+        if h % 4 >= 2:
+            # a duplicated state column: numerically rank deficient data, the tiny singular value is kept by the economy rule
+            Xd = np.hstack((X[:, :1 + ns], X[:, [1]], X[:, 1 + ns:]))
+        regs = [('Dmdc', lambda: pykoop.Dmdc(), ['tsvd_unshifted_', 'tsvd_shifted_'])]
+        if nu == 0:
+            regs.append(('Dmd', lambda: pykoop.Dmd(), ['tsvd_']))
+        regs.append(('LmiEdmd(inv_method=svd)', lambda: L.LmiEdmd(alpha=1e-3, inv_method='svd', solver_params=lmi.SOLVER), ['tsvd_']))
+        for name, mk, attrs in regs:
+            n += 1
+            try:
+                reg = mk().fit(Xd, n_inputs=nu, episode_feature=True)
+            except Exception:  # noqa  (a refused fit is not a result)
+                continue
+            ok = all(check(getattr(reg, a), f'{name}.{a}', Xd) for a in attrs if hasattr(reg, a))
+            if ok and h % 2 == 0:
+                try:
+                    readonly.exercise(reg, Xd)
+                except Exception:  # noqa
+                    pass
+                all(check(getattr(reg, a), f'{name}.{a} after the read-only helpers', Xd) for a in attrs if hasattr(reg, a))
+    return n, bad
+
+
 def run(res, tier):
     rng = np.random.default_rng(common.seed())
     proved = driver.proof_step(res, PID)
     known.report_known(res, PID)
     n = 40 if tier == 'quick' else 600
     batch, failed, errors, bad, samples, dist, evals = run_cases(rng, n)
+    n_o, bad_o = owned_tsvd_cases(rng, tier)
+    evals += n_o; bad = bad + bad_o; dist['tsvd_objects_owned_by_regressors'] = n_o
     res.coverage.update(
         evaluations=evals, distinct_nontrivial=evals,
         rule=('Matrices: tall / wide / square / prescribed repeated singular values / rank-deficient / diagonal / random / slender (aspect 12..30, also rank deficient); '
